@@ -143,3 +143,29 @@ contract(TB, 'TypeBlocks._astype_blocks_from_dtypes',
     at_yield=[],
     yield_update=['cov = cov + W(result)'],
     at_exit=['cov == at(self._offs, len(self._blocks))'])
+
+# `.values` (and through it every whole-frame NumPy view): the blocks are assembled under the directory's own offsets
+contract(TB, 'TypeBlocks.values', property=True,
+    props=['C03', 'C04'],
+    params=dict(self='TypeBlocks'), order=['self'],
+    requires=['Dir(self)'],
+    raises={'Exception': 'maybe'},
+    call_ghosts={'TypeBlocks._blocks_to_array': dict(offs='self._offs')})
+
+# column iteration (Frame.iter_array(axis=0), Frame.items, Series extraction of every column): the j-th array yielded is column j of the frame (column n-1-j
+# when reversed) -- a view of the block the directory names, at the column-in-block the directory names.  Row iteration (axis 1) is outside this contract.
+_COLJ = 'cond(reverse, len(self._index) - 1 - j, j)'
+contract(TB, 'TypeBlocks.axis_values', key='TypeBlocks.axis_values[columns]',
+    props=['C03', 'C04', 'C13'],
+    params=dict(self='TypeBlocks', axis='int', reverse='bool'), order=['self', 'axis', 'reverse'], defaults=dict(axis='0', reverse='False'),
+    is_generator=True, yield_sort='arr',
+    requires=['Dir(self)', 'axis == 0'],
+    ghost_init=['j = 0'],
+    n_loops=3,
+    loops={0: dict(index='u', locals={}, invariant=[]), 1: dict(index='u', locals={}, invariant=[]),      # row iteration: unreachable under axis == 0
+           2: dict(index='t', locals=dict(j='int'), ghost_mods=['j'], invariant=['j == t'])},
+    at_yield=['j < len(self._index)',
+              f'same_array(result, at(self._blocks, at(self._index, {_COLJ})[0])) or (result.ndim == 1 and result.src == at(self._blocks, at(self._index, {_COLJ})[0]).src and result.off == at(self._blocks, at(self._index, {_COLJ})[0]).off + at(self._index, {_COLJ})[1])',
+              f'implies(at(self._blocks, at(self._index, {_COLJ})[0]).ndim == 2, not same_array(result, at(self._blocks, at(self._index, {_COLJ})[0])) or W(result) == 1)'],
+    yield_update=['j = j + 1'],
+    at_exit=['j == len(self._index)'])
